@@ -63,6 +63,9 @@ pub enum Kind {
     Value,
     /// the helpers through `#[serde(with = ..)]` / `deserialize_with` attributes on a user document, JSON and RON
     Attrs { bytes: [u8; 16], without_optional_alpha: bool },
+    /// the color as the payload of a user enum (`style` 0 untagged, 1 internally tagged, 2 adjacently tagged)
+    /// through JSON text (`via` 0), a `serde_json::Value` (1) or RON (2): serde's buffered `Content` replay
+    Enum { style: u8, via: u8 },
 }
 
 impl Kind {
@@ -79,6 +82,7 @@ impl Kind {
             Kind::RonOptional { .. } => "ron-optional-alpha",
             Kind::Value => "json-value",
             Kind::Attrs { .. } => "helpers-as-attributes",
+            Kind::Enum { .. } => "enum-payload",
         }
     }
 }
@@ -396,7 +400,7 @@ impl World for C20 {
         }
         let c = self.cases[(index % self.cases.len() as u64) as usize];
         let faults = rng.chance(4, 10);
-        let kind_pick = rng.below(22);
+        let kind_pick = rng.below(24);
         let struct_like = c.shape == Shape::Struct;
         let has_alpha = c.wrapper != Wrapper::None;
         let (kind, raw) = match kind_pick {
@@ -472,6 +476,14 @@ impl World for C20 {
                     *b = *rng.pick(&[0u8, 1, 127, 128, 254, 255, 17, 200, 64, 33]);
                 }
                 (Kind::Attrs { bytes, without_optional_alpha: rng.chance(1, 2) }, false)
+            }
+            22 | 23 => {
+                // RON only under adjacent tagging: ron 0.8 hands newtype structs (palette's hues) to serde's buffered
+                // `Content` as one-element sequences, which no hue can be read back from — a limitation between ron
+                // and serde's untagged / internally tagged enums, not something palette decides
+                let via = rng.below(3) as u8;
+                let style = if via == 2 { 2 } else { rng.below(3) as u8 };
+                (Kind::Enum { style, via }, false)
             }
             _ => (Kind::Value, false),
         };
@@ -701,7 +713,7 @@ impl World for C20 {
             rule: "plan = (case = serializable type: 20 color types x f32|f64 (+u8|u16 for Rgb, Luma) x plain|Alpha|PreAlpha, 5 hue types, 4 user-defined \
                    shapes x plain|Alpha; component values; conversation kind in {SimFormat round trip under a presentation vector, optional-alpha helper, \
                    as_array, as_uint, serde_json over simulated streams with a palette-written or hand-written document, ron over simulated streams, \
-                   serde_json::Value}); the front of the index space enumerates `peer: error@call k` for every k of every (case, presentation) \
+                   serde_json::Value, the color as payload of an untagged / internally tagged / adjacently tagged user enum through JSON text, serde_json::Value and RON (serde's buffered Content replay)}); the front of the index space enumerates `peer: error@call k` for every k of every (case, presentation) \
                    conversation; distinct = distinct plan hash; non-trivial = a conversation ran and was judged",
             state_measure: "states = distinct (case, conversation kind, presentation / document form, fault kind, fault position bucket, outcome class); transitions = distinct consecutive pairs within a worker (informational)",
             assumptions: vec![
@@ -736,6 +748,7 @@ impl World for C20 {
                 "skip_field-forwarded",
                 "helpers-as-attributes-json-and-ron",
                 "near-miss-of-the-alpha-key-not-taken-for-alpha",
+                "color-read-back-through-serde-Content",
             ],
             expected_faults: vec!["peer:error@call-k(ser)", "peer:error@call-k(de)", "io:short-read", "io:short-write", "io:EINTR", "io:error@byte-k", "io:EOF@byte-k", "io:write-zero"],
             time_note: "palette has no clock; simulated time is reported as steps_executed (= data-model calls and I/O calls)",
@@ -1631,6 +1644,43 @@ fn execute(c: &'static CaseDesc, inner: Option<&'static CaseDesc>, vals: &[f64],
                 },
                 Err(e) => {
                     ctx.fail("serialize-failed", &key, format!("a document using the helper attributes failed to serialize to RON: {e}"));
+                }
+            }
+        }
+        Kind::Enum { style, via } => {
+            let sname = ["untagged", "internally-tagged", "adjacently-tagged"][(*style).min(2) as usize];
+            let vname = ["json-text", "json-value", "ron"][(*via).min(2) as usize];
+            let key = format!("enum:{sname}:{vname}:{}", c.name);
+            ctx.state(&(c.name, kname, *style, *via));
+            ctx.step();
+            match (c.ops.enum_round)(vals, *style, *via) {
+                Ok(cases::EnumRound::Back { text, outcome }) => {
+                    ctx.probe("color-read-back-through-serde-Content");
+                    if judge_value(ctx, c, &format!("{sname} enum payload through {vname}"), &key, &outcome, vals) {
+                        return;
+                    }
+                    // "an `alpha` field at the same level": an internally tagged enum puts its tag into the color's
+                    // own object, so there is exactly one object and one `alpha` key in it
+                    if *style == 1 && *via != 2 && c.shape == Shape::Struct && c.wrapper != Wrapper::None {
+                        ctx.checked();
+                        if text.matches('{').count() != 1 || text.matches("\"alpha\":").count() != 1 {
+                            ctx.fail("stable-shape", &key, format!("{}: tag, the color's fields and alpha are not one flat object: {text}", c.name));
+                        }
+                    }
+                }
+                Ok(cases::EnumRound::NotExpressible(why)) => {
+                    // serde cannot tag a sequence, a number or a unit internally; a named-field color is a map and
+                    // must be expressible in JSON under every tagging
+                    if c.shape == Shape::Struct && *via != 2 {
+                        ctx.checked();
+                        ctx.fail("serialize-failed", &key, format!("{}: {sname} enum payload could not be written: {why}", c.name));
+                    } else {
+                        ctx.extra("enum-form-not-expressible-for-this-shape", 1);
+                    }
+                }
+                Err(e) => {
+                    ctx.checked();
+                    ctx.fail("deserialize-failed", &key, format!("{}: {sname} enum payload through {vname}: {e}", c.name));
                 }
             }
         }
